@@ -300,16 +300,16 @@ func (u *Unit) callContract(st *State, c *Contract, fn *types.Func, recv *Val, a
 		st.assume(t)
 	}
 	old := st.fork()
+	// the callee may allocate: the frontier moves (needed by fresh() and by-value results)
+	nf := u.fresh("frontier", SInt)
+	st.assume(tLe(st.frontier, nf))
+	st.frontier = nf
 	// havoc modifies
 	for _, m := range c.Modifies {
 		if err := u.havocTarget(st, env, m); err != nil {
 			u.reject("contract error: %v", err)
 		}
 	}
-	// the callee may allocate: the frontier moves (needed by fresh() and by-value results)
-	nf := u.fresh("frontier", SInt)
-	st.assume(tLe(st.frontier, nf))
-	st.frontier = nf
 	// results
 	res := u.havocResults(st, sig, fn.Name())
 	{
@@ -676,6 +676,7 @@ func (u *Unit) havocTarget(st *State, env *specEnv, m Clause) (err error) {
 				u.logWrite(st, "G$"+g.Name, args[0].S)
 			}
 			u.setHeap(st, "G$"+g.Name, sort, nestedStore(h, args, nv))
+			u.ghostRefBound(st, env, g, nv, rs, st.frontier, false)
 			return nil
 		}
 		return fmt.Errorf("%s: unsupported modifies target %q", m.Where, m.Text)
@@ -764,6 +765,7 @@ func (u *Unit) havocNamed(st *State, env *specEnv, name string) {
 		sort := u.ghostSort(env, g)
 		u.heapTerm(st, "G$"+g.Name, sort)
 		u.havocHeap(st, "G$"+g.Name)
+		u.ghostRefBound(st, env, g, st.heap["G$"+g.Name], sort, st.frontier, false)
 		return
 	}
 	if i := strings.LastIndex(name, "."); i > 0 {
@@ -1257,4 +1259,42 @@ func atomicHeapOf(T types.Type) string {
 		}
 	}
 	return "ATOM$int"
+}
+
+// ghostRefBound: a ghost whose values are references only ever holds references to objects that exist (below the
+// allocation frontier F). t is the ghost's heap term or a row/cell of it, of the given sort.
+func (u *Unit) ghostRefBound(st *State, env *specEnv, g *GhostField, t Term, sort string, F Term, axiom bool) {
+	_, rT, _ := env.specType(g.Ret)
+	if r := strings.TrimSpace(g.Ret); r == "any" || r == "error" || r == "ref" {
+		// reference-valued
+	} else if rT == nil {
+		return
+	} else {
+		switch rT.Underlying().(type) {
+		case *types.Pointer, *types.Interface, *types.Map, *types.Chan, *types.Signature:
+		default:
+			return
+		}
+	}
+	var bs []string
+	sel := t
+	for i := 0; strings.HasPrefix(sort, "(Array "); i++ {
+		v := fmt.Sprintf("g%d!qb%d", i, u.nextQ())
+		bs = append(bs, "("+v+" "+arrayKeySort(sort)+")")
+		sel = tSel(sel, v)
+		sort = arrayElemSort(sort)
+	}
+	if sort != SInt {
+		return
+	}
+	body := tAnd(tLe("0", sel), tLt(sel, F))
+	if len(bs) > 0 {
+		body = fmt.Sprintf("(forall (%s) (! %s :pattern (%s)))", strings.Join(bs, " "), body, sel)
+	}
+	if axiom {
+		r := u.root()
+		r.axioms = append(r.axioms, body)
+		return
+	}
+	st.assume(body)
 }
